@@ -109,3 +109,36 @@ Theorem C16_xmatrix_roundtrip :
 Proof. exact xmatrix_roundtrip. Qed.
 Eval compute in "PA:C16_xmatrix_roundtrip"%string.
 Print Assumptions C16_xmatrix_roundtrip.
+
+(** * JSON bodies, through the derive model *)
+From Base Require Json.
+From Gen Require EndpointBodies.
+From C18 Require Serde SerdeProofs SerdeBridge.
+From C16 Require BodyProofs.
+
+(** The per-endpoint obligation, on the body schemas regenerated from the source of all endpoint
+    modules (the fields the #[request] / #[response] macros put into the generated body struct): member
+    names pairwise distinct; every member that can be left out when encoding ([skip_serializing_if])
+    is re-created when decoding by the missing-member rule, with the very value that was skipped. *)
+Theorem C16_body_schemas_wf : SerdeBridge.all_wf EndpointBodies.endpoint_bodies = true.
+Proof. exact BodyProofs.body_schemas_wf. Qed.
+Eval compute in "PA:C16_body_schemas_wf"%string.
+Print Assumptions C16_body_schemas_wf.
+
+(** Encode a body value, decode the JSON: the same value; the JSON has no duplicate keys. *)
+Theorem C16_body_roundtrip :
+  forall valid ep w t v,
+  In (ep, w, t) EndpointBodies.endpoint_bodies -> SerdeProofs.ok valid t v ->
+  exists j, Serde.ser t v = Some j /\ Serde.deser valid t j = Some v /\ Serde.nodup_deep j = true.
+Proof. exact BodyProofs.body_roundtrip. Qed.
+Eval compute in "PA:C16_body_roundtrip"%string.
+Print Assumptions C16_body_roundtrip.
+
+(** Whatever body was accepted, re-encoding it and decoding again gives the same value. *)
+Theorem C16_body_reencode_stable :
+  forall valid ep w t j v,
+  In (ep, w, t) EndpointBodies.endpoint_bodies -> Serde.nodup_deep j = true -> Serde.deser valid t j = Some v ->
+  exists j', Serde.ser t v = Some j' /\ Serde.deser valid t j' = Some v /\ Serde.nodup_deep j' = true.
+Proof. exact BodyProofs.body_fixpoint. Qed.
+Eval compute in "PA:C16_body_reencode_stable"%string.
+Print Assumptions C16_body_reencode_stable.
